@@ -37,6 +37,8 @@ from harness import simdir as sd
 from harness.common import REPO, PropertyFailure, Sub, scratch_dir
 
 PROPERTY = "C18"
+# wall-clock safety net (cases after it are counted as inconclusive)
+BUDGET_S = {"quick": 80, "thorough": 1100}
 RULE = ("history: Hypothesis draws a simulation name and SIMLOC sub-path from "
         "[A-Za-z0-9_] segments that include the catalogue's own format words "
         "(restart, rl, it, arange, Checkpoints, 3D, output), 1-4 restarts "
